@@ -32,6 +32,7 @@ type params struct {
 	Closing  bool // channel 2's transport dies concurrently
 	Many     bool // longer per-writer histories (FIFO)
 	Decoded  bool // forwarded frames carry decoded messages (encoded by Node.encodeFrame in the caller)
+	Requeue  bool // a reconnecting endpoint: items queued for the dead channel must not reach the new connection
 }
 
 func (p params) name() string {
@@ -53,6 +54,9 @@ func (p params) name() string {
 	}
 	if p.Decoded {
 		s += "/decoded"
+	}
+	if p.Requeue {
+		s += "/requeue"
 	}
 	return s
 }
@@ -100,11 +104,77 @@ func fwd(i int, v2 bool) frame.Frame {
 	return f
 }
 
+// requeue: serial endpoint; the first connection's Write blocks until the port is closed, so
+// the items written to its channel pile up in the channel's queue; then the port dies. The
+// endpoint reconnects (new connection, new channel): nothing addressed to the old channel and
+// nothing written to all before the new channel opened may appear on the new connection.
+func (e *exec) requeue() {
+	c1 := &vnet.FakeConn{Name: "ser1", WriteBlockAt: 1}
+	c2 := &vnet.FakeConn{Name: "ser2"}
+	ss := &sx.SerialScript{Conns: []*vnet.FakeConn{{Name: "probe"}, c1, c2}}
+	ss.Install()
+	n := &gomavlib.Node{Dialect: sx.Dialect(), OutVersion: gomavlib.V2, OutSystemID: 10, OutComponentID: 20, HeartbeatDisable: true,
+		Endpoints: []gomavlib.EndpointConf{gomavlib.EndpointSerial{Device: "/dev/ttyFAKE", Baud: 57600}}}
+	if err := n.Initialize(); err != nil {
+		e.problems = append(e.problems, "Initialize: "+err.Error())
+		return
+	}
+	var chans []*gomavlib.Channel
+	vmc.GoApp("consumer", func() {
+		e.log.Consume(n, -1, func(ev gomavlib.Event) {
+			if x, ok := ev.(*gomavlib.EventChannelOpen); ok {
+				chans = append(chans, x.Channel)
+			}
+		})
+	})
+	vmc.Await("first channel", func() bool { return len(chans) >= 1 })
+	old := chans[0]
+	for i := 1; i <= 4; i++ {
+		n.WriteMessageTo(old, ping(i)) //nolint
+		n.WriteMessageAll(ping(10 + i)) //nolint
+	}
+	c1.FailRead(io.EOF) // the port dies with items still queued
+	vmc.Await("second channel", func() bool { return len(chans) >= 2 || vmc.NowNS() > int64(20*time.Second) })
+	vmc.AddWake(vmc.Now().Add(20*time.Second), "horizon")
+	if len(chans) < 2 {
+		e.problems = append(e.problems, "the serial endpoint did not reconnect")
+		n.Close()
+		return
+	}
+	n.WriteMessageTo(old, ping(5))       //nolint  closed channel: ignored
+	n.WriteMessageTo(chans[1], ping(31)) //nolint
+	n.WriteMessageAll(ping(32))          //nolint
+	vmc.AddWake(vmc.Now().Add(2*time.Second), "settle")
+	target := vmc.NowNS() + int64(2*time.Second)
+	vmc.Await("settled", func() bool { return vmc.NowNS() >= target })
+	frames, prob := sx.ParseWire(c2.Written)
+	if prob != "" {
+		e.problems = append(e.problems, "ser2: "+prob)
+	}
+	var got []string
+	for _, f := range frames {
+		num, _ := ref.PingSeq(f.Payload, f.V2)
+		got = append(got, fmt.Sprint(num))
+	}
+	if fmt.Sprint(got) != fmt.Sprint([]string{"31", "32"}) {
+		e.problems = append(e.problems, fmt.Sprintf("the new connection carries %v, only items 31 and 32 were written after it opened (1..5 were addressed to the dead channel, 11..14 were written to all before it existed)", got))
+	}
+	if pr := sx.CheckOriginated(frames, 10, 20, true, nil, 0); pr != "" {
+		e.problems = append(e.problems, "ser2: "+pr)
+	}
+	n.Close()
+}
+
 func (e *exec) Body() {
 	sx.ResetGlobals()
 	vrand.Next = 0x5C
 	p := e.p
 	decodedFrames = p.Decoded
+	if p.Requeue {
+		e.requeue()
+		e.finished = true
+		vmc.Finish()
+	}
 	n := &gomavlib.Node{Dialect: sx.Dialect(), OutVersion: gomavlib.V2, OutSystemID: 10, OutComponentID: 20, HeartbeatDisable: true}
 	if p.V1 {
 		n.OutVersion = gomavlib.V1
@@ -305,6 +375,9 @@ func (e *exec) Check(r *vmc.Result) string {
 func (e *exec) Outcome(r *vmc.Result) string {
 	var s []string
 	for _, c := range e.conns {
+		if c == nil {
+			continue
+		}
 		fr, _ := sx.ParseWire(c.Written)
 		var ids []string
 		for _, f := range fr {
@@ -318,7 +391,7 @@ func (e *exec) Outcome(r *vmc.Result) string {
 
 func variants(thorough bool) []sx.Variant {
 	ps := []params{{}, {Signed: true}, {V1: true}, {Incoming: true}, {Closing: true}, {Many: true}, {Signed: true, Incoming: true, Many: true},
-		{Decoded: true}, {Decoded: true, V1: true}}
+		{Decoded: true}, {Decoded: true, V1: true}, {Requeue: true}}
 	var out []sx.Variant
 	for _, p := range ps {
 		p := p
